@@ -58,10 +58,51 @@ def atn(P, t):
     return t["stl"] + max(t["ni"], t["mi"], P["trk_min_normal_interval"])
 
 
+BEP15 = {"ss": 2, "ST": 2, "sc": 1, "sp": 3, "SP": 3, "mr": 0}
+BEP15_NAME = {0: "none", 1: "completed", 2: "started", 3: "stopped"}
+
+
+def oracle_udp(case, line):
+    """U cases: the announce packet on the wire (BEP 15): event code at offset 80 and the three counters."""
+    head, _, opstr = case.partition(" ; ")
+    up, comp, left = head.split()[1:4]
+    ops = opstr.split()
+    segs = line.split(" | ")
+    if len(segs) != len(ops):
+        return [(None, "UDP case: %d packets reported for %d client events: %s" % (len(segs), len(ops), line[:200]))]
+    bad = []
+    pending = None
+    for i, (op, seg) in enumerate(zip(ops, segs)):
+        if op in ("ss", "ST"):
+            pending = 2
+        elif op == "sc":
+            pending = 1
+        elif op in ("sp", "SP"):
+            pending = None
+        if seg == "-":
+            continue
+        f = seg.split(":")
+        if len(f) != 4 or not all(x.isdigit() for x in f):
+            bad.append((None, "UDP case: op %d (%s): %s" % (i, op, seg[:120])))
+            continue
+        want = BEP15[op] if op != "mr" else (pending if pending is not None else 0)
+        if int(f[0]) != want:
+            bad.append((None, "UDP announce packet for a '%s' event carries BEP-15 event code %s (%s) at op %d (%s)" % (
+                BEP15_NAME[want], f[0], BEP15_NAME.get(int(f[0]), "?"), i, op)))
+        if (f[1], f[2], f[3]) != (comp, left, up):
+            bad.append((None, "UDP announce packet downloaded/left/uploaded = %s/%s/%s differ from the download info %s/%s/%s at op %d (%s)" % (
+                f[1], f[2], f[3], comp, left, up, i, op)))
+        if want in (1, 2) and int(f[0]) == want:
+            pending = None      # the harness tracker answers every announce with a success
+    return bad[:2]
+
+
 def oracle(case, line, P):
     """Returns list of (klass or None, text). klass None = unclassified violation."""
-    if line.startswith("CRASH") or "ERR:" in line or "BAD" in line or line == "MISSING":
+    if line.startswith("CRASH") or "ERR:" in line or "BAD" in line or line == "MISSING" or "SETUP-FAIL" in line or "unexpected-packet" in line or "no-announce" in line:
         return [(None, "implementation crashed or raised: " + line[-200:])]
+    if case.startswith("U "):
+        return oracle_udp(case, line)
     head, _, opstr = case.partition(" ; ")
     ht = head.split()
     groups = [int(x) for x in ht[4:4 + int(ht[3])]]
